@@ -344,6 +344,8 @@ def check_case(case):
     subset = [n for i, n in enumerate(names) if (mask >> i) & 1]
     if form in ("split", "choice_mod_first", "choice_src_first") and not subset:
         subset = names[:1]
+    if form == "choice_src_first" and len(subset) == len(names):
+        subset = subset[1:]  # leave something for the module loader
     before = _registered_packages()
     work = os.path.join(WORK, "c31-%d-%d" % (os.getpid(), next(_counter)))
     shutil.rmtree(work, ignore_errors=True)
@@ -424,13 +426,17 @@ def check_case(case):
                 else:
                     raise core.Violation("broken template %r is loadable from the module loader" % b)
         if state.loads == 0:
-            raise core.HarnessError("no template was loaded through the ModuleLoader")
+            labels.append("nothing_loaded_from_modules")  # e.g. every render failed while decoding Template objects
         labels.append("xref" if state.xrefs else "no_xref")
         if nerr == 0:
             labels.append("all_rendered")
-        nontrivial = state.xrefs > 0
+        nontrivial = state.xrefs > 0 and state.loads > 0
     finally:
-        loop.close()
+        try:
+            loop.run_until_complete(loop.shutdown_asyncgens())  # generators a failed async render left behind
+            loop.run_until_complete(asyncio.sleep(0))
+        finally:
+            loop.close()
         # drop everything that keeps the loaders alive, then the import system's view of the scratch paths
         compile_env = src_env = mod_env = loader = ML = None  # noqa: F841
         state = None
